@@ -115,23 +115,35 @@ def setup (sz tbl roots gr : Sexp) : Option (Cfg × State) := do
   let gran ← gran? gr
   pure (⟨grammarOf rows, gran, rts.length⟩, initState size rts)
 
+/-- `acqP` / `relP` / `acqR` / `relR` / `acqF<i>` / `relF<i>` (a lock stored on an element instance) / `tau` -/
 def lop? : Sexp → Option Locks.Op
-  | .atom "acqP" => some (.acq .P) | .atom "relP" => some (.rel .P)
-  | .atom "acqR" => some (.acq .R) | .atom "relR" => some (.rel .R)
+  | .atom "acqP" => some (.acq Locks.P) | .atom "relP" => some (.rel Locks.P)
+  | .atom "acqR" => some (.acq Locks.R) | .atom "relR" => some (.rel Locks.R)
   | .atom "tau" => some .tau
+  | .atom a =>
+      if a.startsWith "acqF" then (a.drop 4).toNat?.map fun i => .acq (Locks.F i)
+      else if a.startsWith "relF" then (a.drop 4).toNat?.map fun i => .rel (Locks.F i)
+      else none
   | _ => none
 
 def lprog? : Sexp → Option (List Locks.Op)
   | .list (.atom "prog" :: ops) => ops.mapM lop?
   | _ => none
 
+def lockOf : Locks.Op → Nat
+  | .acq l => l | .rel l => l | .tau => 0
+
+/-- number of locks: the two class-wide ones and every instance lock mentioned -/
+def nLocks (ps : List (List Locks.Op)) : Nat :=
+  ps.foldl (fun n p => p.foldl (fun n o => max n (lockOf o + 1)) n) 2
+
 /-- first thread whose program breaks the lock discipline for `codeRank`, with the index of the operation -/
-def firstBad : Nat → List (List Locks.Op) → Option (Nat × Nat)
+def firstBad (n : Nat) : Nat → List (List Locks.Op) → Option (Nat × Nat)
   | _, [] => none
   | t, p :: r =>
-      match Locks.firstViolation Locks.codeRank Locks.Held.zero 0 p with
+      match Locks.firstViolation n Locks.codeRank Locks.Held.zero 0 p with
       | some i => some (t, i)
-      | none => firstBad (t + 1) r
+      | none => firstBad n (t + 1) r
 
 end Thr
 
@@ -159,7 +171,7 @@ def threadsHandle : List Sexp → Option Sexp
       pure (.list (all.reverse.map fun sc => .list (sc.map ofNat)))
   | .atom "locks-check" :: progs => do
       let ps ← progs.mapM lprog?
-      match firstBad 0 ps with
+      match firstBad (nLocks ps) 0 ps with
       | none => pure (.atom "ok")
       | some (t, i) => pure (.list [.atom "violation", ofNat t, ofNat i])
   | [.atom "lr-run", .list (.atom "inputs" :: is), .list (.atom "sched" :: ts)] => do
